@@ -889,3 +889,19 @@ def all_match_form(e):
             and u(c.operand.args[0]) == u(ff.generators[0].target) and u(ff.elt) == u(ff.generators[0].target):
           return u(c.operand.func), ff.generators[0].iter, isinstance(e.ops[0], ast.Is)
   return None
+
+
+def facts_for_expr(g, facts, node):
+  """Facts that hold wherever expression `node` is evaluated: at every CFG node (statement, branch test, return, raise) containing it."""
+  out = None
+  for cn in g.live_nodes():
+    if cn.ast is None or cn.kind not in ('stmt', 'test', 'return', 'raise_stmt', 'for', 'with_enter'):
+      continue
+    roots = [cn.ast]
+    if cn.kind == 'for':
+      roots = [cn.ast.iter]
+    elif cn.kind == 'with_enter':
+      roots = [it.context_expr for it in cn.ast.items]
+    if any(x is node for r in roots for x in ast.walk(r)):
+      out = facts[cn.id] if out is None else (out & facts[cn.id])
+  return out if out is not None else frozenset()
